@@ -16,6 +16,16 @@ def asciiCC : CC where
   isAlnum c := (65 ≤ c && c ≤ 90) || (97 ≤ c && c ≤ 122) || (48 ≤ c && c ≤ 57)
   lower c := if 65 ≤ c && c ≤ 90 then c + 32 else c
 
+/-- Rust's `char` classes on the code points the generators use: ASCII plus Latin-1 letters and digits, and every
+    Unicode white-space character (`char::is_whitespace` = White_Space). Used by the executable driver. -/
+def rustCC : CC where
+  isWs c := c = 32 || (9 ≤ c && c ≤ 13) || c = 0x85 || c = 0xA0 || c = 0x1680 || (0x2000 ≤ c && c ≤ 0x200A) ||
+    c = 0x2028 || c = 0x2029 || c = 0x202F || c = 0x205F || c = 0x3000      -- Unicode White_Space = Rust's char::is_whitespace
+  isAlpha c := (65 ≤ c && c ≤ 90) || (97 ≤ c && c ≤ 122) || (0xC0 ≤ c && c ≤ 0xFF && c ≠ 0xD7 && c ≠ 0xF7) || c = 0xAA || c = 0xB5 || c = 0xBA
+  isAlnum c := (65 ≤ c && c ≤ 90) || (97 ≤ c && c ≤ 122) || (48 ≤ c && c ≤ 57) ||
+    (0xC0 ≤ c && c ≤ 0xFF && c ≠ 0xD7 && c ≠ 0xF7) || c = 0xAA || c = 0xB5 || c = 0xBA || c = 0xB2 || c = 0xB3 || c = 0xB9 || (0xBC ≤ c && c ≤ 0xBE)
+  lower c := if 65 ≤ c && c ≤ 90 then c + 32 else if 0xC0 ≤ c && c ≤ 0xDE && c ≠ 0xD7 then c + 32 else c
+
 structure P where
   rest : List Nat
   peek : Nat
